@@ -135,6 +135,11 @@ class SRTWriter(BaseWriter):
 
             # Eliminate excessive line breaks
             new_content = new_content.strip()
+            # A blank line ends an SRT cue: drop the empty lines that
+            # consecutive line breaks (or empty text nodes) would leave
+            # inside the cue text
+            new_content = '\n'.join(
+                line for line in new_content.split('\n') if line.strip())
 
             srt += f"{new_content}\n\n"
             count += 1
